@@ -108,7 +108,7 @@ def prophy_inputs(draw):
     """-> (label, {relative path: text}, main file)"""
     schema = draw(gen.schemas(gen.GenOpts(max_decls=4, big_sizes=False)))
     text = schema.to_prophy()
-    kind = draw(st.sampled_from(['valid', 'mutant', 'mutant', 'soup', 'unicode', 'division', 'shift', 'self_include',
+    kind = draw(st.sampled_from(['valid', 'mutant', 'mutant', 'soup', 'unicode', 'division', 'shift', 'crlf', 'self_include',
                                  'mutual_include', 'missing_include', 'use_before_def', 'recursive']))
     files = {}
     if kind == 'valid':
@@ -124,6 +124,14 @@ def prophy_inputs(draw):
         op = draw(st.sampled_from(['/', '>>', '<<', '*', '-']))
         files['m.prophy'] = ('const A = %d %s %d;\nconst B = A %s 2;\nstruct S\n{\n    u8 x[B + 1];\n};\n'
                              'union U\n{\n    A: u8 a;\n    B + 9: u8 b;\n};\n' % (a, op, b, op))
+    elif kind == 'crlf':
+        # Windows line endings; optionally a comment opened somewhere and never closed (truncated / corrupted file)
+        body = (text + text).replace('\n', '\r\n')
+        toks = body.split(' ')
+        if draw(st.booleans()):
+            pos = draw(st.integers(0, max(len(toks) - 1, 0)))
+            toks.insert(pos, draw(st.sampled_from(['/*', '/* note', '//', '*/', '/*/'])))
+        files['m.prophy'] = ' '.join(toks)
     elif kind == 'shift':
         a = draw(st.sampled_from([-1, -3, -64, 0, 1, 64, 4000, 100000]))
         op = draw(st.sampled_from(['<<', '>>']))
